@@ -278,6 +278,64 @@ def run(ctx):
             else:
                 r.bad(name, "%s does not deliver after-context, before-context and the match in that order" % name, fn=f)
 
+    with ctx.rule("C03.STOPNM", "--stop-on-nonmatch: once a line matched, the first non-matching line ends the search on every path",
+                  floor=5, kind="GUARD/A3") as r:
+        def force_both(f, eb):
+            """edges to delete so that (stop_on_nonmatch ∧ has_matched) is forced true"""
+            a = cond_switches(f, lambda e: W.field_of(e, SCFG, "stop_on_nonmatch"), eb)
+            b = cond_switches(f, lambda e: W.field_of(e, CORE, "has_matched"), eb)
+            return a, b, {s_[2] for s_ in a} | {s_[2] for s_ in b}
+        f = facts.fn(CORE + "::is_line_by_line_fast")
+        eb = ExprBuilder(f)
+        a, b, rem = force_both(f, eb)
+        trues = [bb for bb, j, st in f.stmts() if st["k"] == "assign" and st["place"]["l"] == 0 and
+                 (op_const(st["rv"].get("a", {})) or {}).get("val") == 1]
+        if a and b and trues and not (set(trues) & C.reach(f, [0], removed_edges=rem)):
+            r.ok("fastgate", "stop_on_nonmatch ∧ has_matched ⇒ the fast path is not admitted", fn=f)
+        else:
+            r.bad("fastgate", "is_line_by_line_fast can admit the fast path although stop_on_nonmatch is set and a line already "
+                  "matched (the fast path skips non-matching lines instead of stopping at the first one)", fn=f, construct="stop_on_nonmatch")
+        g = facts.fn(CORE + "::match_by_line_fast")
+        ebg = ExprBuilder(g)
+        a, b, rem = force_both(g, ebg)
+        finders = [c.bb for c in g.calls() if c.path in (CORE + "::find_by_line_fast", CORE + "::match_by_line_fast_invert")]
+        if a and b and finders and not (set(finders) & C.reach(g, [0], removed_edges=rem)):
+            r.ok("fast|loop", "inside the fast loop: stop_on_nonmatch ∧ has_matched ⇒ SwitchToSlow before searching on", fn=g)
+        else:
+            r.bad("fast|loop", "match_by_line_fast keeps searching with the fast scanner after a match under stop_on_nonmatch", fn=g,
+                  construct="stop_on_nonmatch")
+        h = facts.fn(CORE + "::match_by_line_slow")
+        ebh = ExprBuilder(h)
+        a, b, rem = force_both(h, ebh)
+        succ = cond_switches(h, lambda e: e.k == "bin" and e[1] in ("Ne", "BitXor") and mentions_field(e, SCFG, "invert_match"), ebh)
+        # under stop ∧ matched ∧ !success the function returns Ok(false)
+        if a and b and succ:
+            rem2 = rem | {s_[1] for s_ in succ}
+            hdrs = {x for _, x in C.back_edges(h)}
+            # from the success switch's false edge (a non-matching line), forcing the two flags true: no next iteration
+            fr = C.reach(h, [succ[0][2][1]], removed_edges=rem2, stop_blocks=hdrs)
+            rets_false = [bb for bb, j, st in h.stmts() if bb in fr and st["k"] == "assign" and st["place"]["l"] == 0 and
+                          st["rv"]["k"] == "agg" and st["rv"].get("variant") == "Ok" and (op_const(st["rv"]["ops"][0]) or {}).get("val") == 0]
+            again = [x for x in hdrs if x in fr]
+            if rets_false and not again:
+                r.ok("slow|stop", "non-matching line ∧ stop_on_nonmatch ∧ has_matched ⇒ Ok(false) (no further iteration)", fn=h)
+            else:
+                r.bad("slow|stop", "the slow path keeps going after the first non-matching line under stop_on_nonmatch", fn=h,
+                      construct="stop_on_nonmatch")
+        else:
+            r.bad("slow|stop", "anchor-missing: stop_on_nonmatch handling in match_by_line_slow", fn=h)
+        # has_matched is set before every match is delivered on the line paths
+        for fn_ in (h, g, facts.fn(CORE + "::match_by_line_fast_invert")):
+            ebx = ExprBuilder(fn_)
+            sm = fn_.calls_to(CORE + "::sink_matched")
+            sets = {bb for bb, j, st in fn_.stmts() if st["k"] == "assign" and (CORE, "has_matched") in fields_of_place(st["place"])
+                    and (op_const(st["rv"].get("a", {})) or {}).get("val") == 1}
+            if sm and sets and not C.all_paths_pass(fn_, [0], sets, [c.bb for c in sm]):
+                r.ok("has_matched|" + fn_.name, "has_matched = true before every sink_matched", fn=fn_)
+            else:
+                r.bad("has_matched|" + fn_.name, "%s can deliver a match without recording has_matched" % fn_.name, fn=fn_,
+                      construct="has_matched")
+
     with ctx.rule("C03.WINDOW", "before-context starts at the last visited line; after-context stops when none is owed", floor=2,
                   kind="FLOW/A3") as r:
         f = facts.fn(CORE + "::before_context_by_line")
